@@ -1246,8 +1246,11 @@ func (g *Gen) try(m *Model, eng *Engine) *Cmd {
 		f := g.cond(name, def, 1)
 		at := map[string]bool{}
 		f.Attrs(at)
-		if at[def.Hash.Name] || (def.Range != nil && at[def.Range.Name]) {
-			return nil // filters may not name key attributes of the queried table
+		if at["h"] || at["r"] || at["g1"] || at["g2"] || at["l1"] {
+			// the text is reused on other tables, where a key or index attribute may
+			// be absent or declared with another type (cross-type comparisons are
+			// outside the fragment)
+			return nil
 		}
 		cmd.Native, cmd.Filter, cmd.Verdict = "matcher", f, r.Chance(0.5)
 		g.natFilters = append(g.natFilters, natFilter{name, f})
